@@ -71,3 +71,37 @@ def check_traces(name, traces):
     checks = [check_term(t, e) for (_, t, e) in traces]
     bad, errors = fw.coq_mismatches(name, IMPORTS, '', checks, chunk=500)
     return [traces[i] for i in bad], errors
+
+
+def lock_discipline(log):
+    """log: [(cid, 'sql:BEGIN' | ..., detail)] in global order (scheduler log; a step is logged BEFORE it
+    executes).  A BEGIN is successful iff the same client's next sql event is not another BEGIN.  Checks what
+    the machine proves (lock_excludes, db_changes_only_by_commit): while one client is between its successful
+    BEGIN and its COMMIT/ROLLBACK no other client is, and INSERT/UPDATE/DELETE on the Cache table happen only
+    inside the client's own transaction.  Returns list of problem strings."""
+    problems = []
+    # next sql event per position for each client
+    nxt = {}
+    last_idx = {}
+    for idx, (cid, what, _) in enumerate(log):
+        if what.startswith('sql:'):
+            if cid in last_idx:
+                nxt[last_idx[cid]] = what
+            last_idx[cid] = idx
+    holder = None
+    for idx, (cid, what, _) in enumerate(log):
+        if what == 'sql:BEGIN':
+            ok = nxt.get(idx) not in ('sql:BEGIN', None) or (nxt.get(idx) is None and False)
+            if nxt.get(idx) is None:
+                ok = False          # the call ended at this BEGIN (Timeout) or the run stopped
+            if ok:
+                if holder is not None and holder != cid:
+                    problems.append('client %d began a transaction at step %d while client %d held the write lock' % (cid, idx, holder))
+                holder = cid
+        elif what in ('sql:COMMIT', 'sql:ROLLBACK'):
+            if holder == cid:
+                holder = None
+        elif what in ('sql:INSERT', 'sql:UPDATE', 'sql:DELETE'):
+            if holder != cid:
+                problems.append('client %d executed %s at step %d outside its own transaction (lock holder: %r)' % (cid, what, idx, holder))
+    return problems
